@@ -346,3 +346,54 @@ func dumpVal(v reflect.Value) sx {
 	}
 	return T("unsupported", A(clean(fmt.Sprint(t))))
 }
+
+// fillJunk stores a non-zero value in every part of v it can reach (destination structs that a caller reuses
+// still hold the previous record: ReadFile must clear them before every record)
+func fillJunk(v reflect.Value, depth int) {
+	if depth > 4 || !v.CanSet() {
+		return
+	}
+	switch v.Type() {
+	case timeT:
+		v.Set(reflect.ValueOf(time.Unix(1234567890, 5).UTC()))
+		return
+	}
+	switch v.Kind() {
+	case reflect.Bool:
+		v.SetBool(true)
+	case reflect.Int, reflect.Int8, reflect.Int16, reflect.Int32, reflect.Int64:
+		v.SetInt(77)
+	case reflect.Uint, reflect.Uint8, reflect.Uint16, reflect.Uint32, reflect.Uint64:
+		v.SetUint(77)
+	case reflect.Float32, reflect.Float64:
+		v.SetFloat(7.5)
+	case reflect.String:
+		v.SetString("junk-from-an-earlier-record")
+	case reflect.Slice:
+		s := reflect.MakeSlice(v.Type(), 2, 2)
+		fillJunk(s.Index(0), depth+1)
+		fillJunk(s.Index(1), depth+1)
+		v.Set(s)
+	case reflect.Array:
+		for i := 0; i < v.Len(); i++ {
+			fillJunk(v.Index(i), depth+1)
+		}
+	case reflect.Map:
+		if v.Type().Key().Kind() != reflect.String {
+			return
+		}
+		m := reflect.MakeMap(v.Type())
+		e := reflect.New(v.Type().Elem()).Elem()
+		fillJunk(e, depth+1)
+		m.SetMapIndex(reflect.ValueOf("junk-key").Convert(v.Type().Key()), e)
+		v.Set(m)
+	case reflect.Pointer:
+		p := reflect.New(v.Type().Elem())
+		fillJunk(p.Elem(), depth+1)
+		v.Set(p)
+	case reflect.Struct:
+		for i := 0; i < v.NumField(); i++ {
+			fillJunk(v.Field(i), depth+1)
+		}
+	}
+}
